@@ -138,8 +138,8 @@ theorem step_refines_ok (E : Env α) (l : List α) (op : Op α) (o : Out α)
     refine ⟨.reverse, rfl, ?_⟩
     simp only [TraitList.step] at h
     split at h <;> (simp only [Except.ok.injEq] at h; subst h; simp [pyStep])
-  | sort =>
-    refine ⟨.sort, rfl, ?_⟩
+  | sort sp =>
+    refine ⟨.sort sp, rfl, ?_⟩
     simp only [TraitList.step] at h
     split at h <;> (simp only [Except.ok.injEq] at h; subst h; simp [pyStep])
 
@@ -276,7 +276,7 @@ theorem step_refines_error (E : Env α) (l : List α) (op : Op α) (e : Exc)
       | ok l' => simp [hi, hr] at h
   | clear => simp only [TraitList.step] at h; split at h <;> cases h
   | reverse => simp only [TraitList.step] at h; split at h <;> cases h
-  | sort => simp only [TraitList.step] at h; split at h <;> cases h
+  | sort sp => simp only [TraitList.step] at h; split at h <;> cases h
 
 /-- Completeness: whenever the builtin list succeeds on the validated items, so
 does `TraitList`, with the same contents and return value. -/
@@ -339,6 +339,6 @@ theorem step_refines_complete (E : Env α) (l : List α) (op op' : Op α) (l' : 
       | remove x => simp only [validateOp, Except.ok.injEq] at hv; subst hv; rw [hp] at h3; cases h3
       | clear => simp [pyStep] at h3
       | reverse => simp [pyStep] at h3
-      | sort => simp [pyStep] at h3
+      | sort sp => simp [pyStep] at h3
 
 end TraitsVerif.Model
